@@ -27,6 +27,17 @@ kinds
   self-mutation     a method other than __init__/__post_init__/set_*/property setter assigns to or mutates
                     an attribute of self (codec objects that change when they are serialised / queried)
   ambient-read      a use of time / datetime / random / secrets / uuid / os.environ / os.urandom / os.getpid
+  ambient-read-at-import
+                    a CALL of time / datetime / random / secrets / uuid / os.urandom / os.getpid / os.getenv (or a read of
+                    os.environ) that is evaluated when the module is IMPORTED - at module level, in a class body, in a
+                    decorator or in a parameter default - directly, or through a function of the package that reads them
+                    (`gpsdata = GPSData.zero()` as a default).  Every module (not only the codec ones): what the
+                    interpreter saw at import is frozen into every later call (a clock patched after import sees nothing)
+  returns-argument  a function may hand back one of its parameters itself (`return payload`, also inside a returned
+                    tuple / list, through a plain alias or through another returns-argument function): the caller of
+                    such a function holds the ARGUMENT, an in-place operation on the "result" lands in the caller's buffer.
+                    The taint of param-mutation / shared-mutation flows through calls of these functions
+                    (`x = bytes_to_bits(data); x += …` is a param-mutation of `data` if bytes_to_bits may return its argument)
 """
 import ast
 import os
@@ -70,11 +81,22 @@ PASS_THROUGH_METHODS = {
 SHALLOW_COPY_FUNCS = {"copy", "copy.copy", "dict", "list", "set", "sorted", "reversed", "enumerate", "zip", "iter", "next", "filter", "map"}
 AMBIENT_MODULES = {"time", "datetime", "random", "secrets", "uuid"}
 AMBIENT_OS = {"environ", "urandom", "getpid", "getenv", "times"}
+# constructors / parsers of the ambient modules that read nothing from the environment of the interpreter
+PURE_AMBIENT = {
+    "datetime.date", "datetime.time", "datetime.datetime", "datetime.timedelta", "datetime.timezone", "datetime.timezone.utc",
+    "datetime.datetime.strptime", "datetime.datetime.fromisoformat", "datetime.date.fromisoformat", "datetime.time.fromisoformat",
+    "datetime.datetime.combine", "datetime.date.fromordinal", "datetime.datetime.fromordinal", "datetime.datetime.min",
+    "datetime.datetime.max", "datetime.date.min", "datetime.date.max", "datetime.time.min", "datetime.time.max",
+    "time.struct_time", "time.strptime", "uuid.UUID", "datetime", "time", "random", "uuid", "secrets", "os",
+}
 ENUM_BASES = {"Enum", "IntEnum", "Flag", "IntFlag", "StrEnum", "enum.Enum", "enum.IntEnum", "enum.Flag", "enum.IntFlag"}
 # stateful by design (protocol handlers, storage, transmission tracking): properties C08/C17/C18/C20.
 # self-mutation and ambient reads are inventoried for the codec modules only (everything else).
 NON_CODEC_DIRS = ("okdmr/dmrlib/protocols/", "okdmr/dmrlib/storage/", "okdmr/dmrlib/transmission/")
 SCALAR_ANNOTATIONS = {"int", "str", "bytes", "float", "bool", "Optional[int]", "Optional[str]", "Optional[bytes]", "Optional[float]", "Optional[bool]"}
+# immutable whatever object the caller really passes (a `bytes` annotation is not: bytearray / bitarray / memoryview are accepted
+# by everything that takes the buffer protocol, and an in-place operator on them does not rebind)
+TRULY_SCALAR_ANNOTATIONS = {"int", "str", "float", "bool", "Optional[int]", "Optional[str]", "Optional[float]", "Optional[bool]"}
 EXEMPT_SELF_METHODS = {"__init__", "__post_init__", "__new__", "__init_subclass__", "__setattr__", "__set_name__"}
 
 
@@ -145,6 +167,9 @@ def root_name(node):
             if isinstance(f, ast.Attribute) and f.attr in PASS_THROUGH_METHODS:
                 node = f.value
                 depth += 1
+            elif dotted(f) == "type" and len(node.args) == 1:
+                node = node.args[0]  # type(x): the class of x, shared by all its instances
+                depth += 1
             elif (dotted(f) in SHALLOW_COPY_FUNCS) and node.args:
                 node = node.args[0]
                 depth += 1
@@ -157,7 +182,7 @@ def root_name(node):
 
 
 class ModuleScan:
-    def __init__(self, path, rel, class_attrs, module_globals):
+    def __init__(self, path, rel, class_attrs, module_globals, returns_param=None, module_names=None):
         self.path = path
         self.rel = rel
         self.items = set()
@@ -165,6 +190,15 @@ class ModuleScan:
         self.module_globals = module_globals  # rel -> set of mutable global names
         self.ambient = {}  # local name -> dotted origin
         self.codec = not rel.startswith(NON_CODEC_DIRS)
+        # function name (last component) -> {(positional index without self / cls, parameter name)} it may hand back itself
+        self.returns_param = returns_param or {}
+        self.returns = {}  # what THIS scan found: function name -> {(index, parameter)}
+        # names bound at module level in this file (def / class / import / assignment): objects shared by all calls
+        self.module_names = (module_names or {}).get(rel, set())
+        self.ambient_uses = set()  # (qualified name, dotted ambient origin): every module, also the non-codec ones
+        self.calls = set()  # (qualified name of the caller, dotted name of the callee)
+        self.import_calls = set()  # (where, dotted name of the callee): calls evaluated when the module is imported
+        self.tree = None  # parsed source (scan() hands it over; the scan never modifies it)
 
     def add(self, qual, kind, detail):
         if kind in ("self-mutation", "ambient-read") and not self.codec:
@@ -173,7 +207,7 @@ class ModuleScan:
 
     # ------------------------------------------------------------------------------------------
     def run(self):
-        tree = ast.parse(open(self.path, encoding="utf-8").read(), filename=self.path)
+        tree = self.tree if self.tree is not None else ast.parse(open(self.path, encoding="utf-8").read(), filename=self.path)
         for node in ast.walk(tree):
             if isinstance(node, ast.Import):
                 for a in node.names:
@@ -197,7 +231,7 @@ class ModuleScan:
                 is_enum = any((dotted(b) or "") in ENUM_BASES or (dotted(b) or "").endswith("Enum") for b in st.bases)
                 q = st.name if qual == "<module>" else f"{qual}.{st.name}"
                 for d in st.decorator_list:
-                    self.ambient_reads(d, q)
+                    self.ambient_reads(d, q + ".<decorator>", at_import=True)
                 self.class_level(st, q, is_enum)
                 self.body(st.body, q, st)
             elif isinstance(st, (ast.FunctionDef, ast.AsyncFunctionDef)):
@@ -214,24 +248,28 @@ class ModuleScan:
         elif isinstance(st, ast.AnnAssign):
             targets, value = [st.target], st.value
         elif isinstance(st, (ast.If, ast.Try, ast.With, ast.For, ast.While)):
-            for sub in ast.iter_child_nodes(st):
-                if isinstance(sub, ast.stmt):
+            subs = [x for x in ast.iter_child_nodes(st) if isinstance(x, ast.stmt)]
+            for h in getattr(st, "handlers", []) or []:
+                subs += h.body
+            for sub in subs:
+                if isinstance(sub, (ast.FunctionDef, ast.AsyncFunctionDef, ast.ClassDef)):
+                    self.body([sub], "<module>", None)  # a definition inside `if` / `try` at module level
+                else:
                     self.module_level(sub)
-            for field in ("body", "orelse", "finalbody"):
-                for sub in getattr(st, field, []) or []:
-                    if isinstance(sub, ast.stmt):
-                        pass
         if value is not None:
             k = value_kind(value)
             for t in targets:
                 n = dotted(t)
                 if n and k and n != "__all__":
                     self.add("<module>", "module-global", f"{n}: {k}")
-        if not isinstance(st, (ast.FunctionDef, ast.ClassDef)):
-            self.ambient_reads(st, "<module>")
+        if not isinstance(st, (ast.FunctionDef, ast.AsyncFunctionDef, ast.ClassDef)):
+            self.ambient_reads(st, "<module>", skip_defs=True, at_import=True)
 
     def class_level(self, cdef, q, is_enum):
         for st in cdef.body:
+            if not isinstance(st, (ast.FunctionDef, ast.AsyncFunctionDef, ast.ClassDef)):
+                # everything in a class body that is not a definition runs at import (also bare expressions, if / for / try)
+                self.ambient_reads(st, q + ".<class body>", skip_defs=True, at_import=True)
             targets, value = [], None
             if isinstance(st, ast.Assign):
                 targets, value = st.targets, st.value
@@ -251,7 +289,6 @@ class ModuleScan:
                         self.add(q, "class-mutable", f"{n}: {k}")
                 else:
                     self.add(q, "class-mutable", f"{n}: {k}")
-            self.ambient_reads(st, q + ".<class body>")
 
     # ------------------------------------------------------------------------------------------
     def function(self, fn, q, cls):
@@ -262,14 +299,19 @@ class ModuleScan:
         if args.kwarg:
             params.append(args.kwarg.arg)
         scalar = set()
+        truly_scalar = set()
         for a in args.posonlyargs + args.args + args.kwonlyargs:
             if a.annotation is not None and short(a.annotation, 80) in SCALAR_ANNOTATIONS:
                 scalar.add(a.arg)
+            if a.annotation is not None and short(a.annotation, 80) in TRULY_SCALAR_ANNOTATIONS:
+                truly_scalar.add(a.arg)
         decos = [dotted(d.func) if isinstance(d, ast.Call) else dotted(d) for d in fn.decorator_list]
         decos = [d or "" for d in decos]
         is_static = "staticmethod" in decos
         is_method = cls is not None and not is_static
         self_name = params[0] if (is_method and params) else None
+        # the first parameter IS the class: `cls.X = …` is state of the class, shared by every later call
+        is_classmethod = is_method and ("classmethod" in decos or fn.name in ("__init_subclass__", "__class_getitem__", "__new__"))
         is_setter = any(d.endswith(".setter") or d.endswith(".deleter") for d in decos)
 
         # caches
@@ -277,6 +319,8 @@ class ModuleScan:
             last = d.split(".")[-1]
             if "cache" in last.lower():
                 self.add(q, "cache", f"@{d}")
+        for d in fn.decorator_list:
+            self.ambient_reads(d, q + ".<decorator>", at_import=True)
 
         # defaults
         pos = args.posonlyargs + args.args
@@ -284,13 +328,13 @@ class ModuleScan:
             k = value_kind(d)
             if k:
                 self.add(q, "mutable-default", f"{a.arg} = {short(d)} [{k}]")
-            self.ambient_reads(d, q + ".<default>")
+            self.ambient_reads(d, q + ".<default>", at_import=True)
         for a, d in zip(args.kwonlyargs, args.kw_defaults):
             if d is not None:
                 k = value_kind(d)
                 if k:
                     self.add(q, "mutable-default", f"{a.arg} = {short(d)} [{k}]")
-                self.ambient_reads(d, q + ".<default>")
+                self.ambient_reads(d, q + ".<default>", at_import=True)
 
         # nested defs are scanned as their own functions (closures over parameters are rare here)
         inner_stmts = []
@@ -306,14 +350,28 @@ class ModuleScan:
                 self.body([node], f"{q}.<locals>", None)
 
         # ---- taint: which local names may refer to (parts of) caller-visible / shared objects
-        PARAM, SHARED, SELF = "param", "shared", "self"
+        PARAM, SHARED, SELF, CLS = "param", "shared", "self", "class"
         taint = {}
         for p in params:
             if p == self_name:
-                taint[p] = (SELF, p)
+                taint[p] = (CLS if is_classmethod else SELF, p)
             else:
                 taint[p] = (PARAM, p)
         globs = self.module_globals.get(self.rel, set())
+        free_params = [p for p in params if p != self_name]
+
+        def returned_args(call):
+            """argument expressions of a call that the callee (matched by its name) may hand back itself"""
+            f = call.func
+            fname = f.attr if isinstance(f, ast.Attribute) else (f.id if isinstance(f, ast.Name) else None)
+            out = []
+            for idx, pname in sorted(self.returns_param.get(fname, ())):
+                kw = next((k.value for k in call.keywords if k.arg == pname), None)
+                if kw is not None:
+                    out.append(kw)
+                elif idx < len(call.args) and not isinstance(call.args[idx], ast.Starred):
+                    out.append(call.args[idx])
+            return out
 
         def expr_taint(e):
             """(class, origin) if the expression may evaluate to a shared / caller-owned mutable object"""
@@ -331,6 +389,12 @@ class ModuleScan:
                 return None  # a fresh container; elements are not tracked through it
             if isinstance(e, ast.NamedExpr):
                 return expr_taint(e.value)
+            if isinstance(e, ast.Call):
+                # a function that may return its argument itself: the "result" is the caller-visible object
+                for a in returned_args(e):
+                    t = expr_taint(a)
+                    if t:
+                        return t
             name, depth = root_name(e)
             if name is None:
                 return None
@@ -350,6 +414,9 @@ class ModuleScan:
                 elif isinstance(n2, ast.Call) and isinstance(n2.func, ast.Attribute) and n2.func.attr in PASS_THROUGH_METHODS:
                     attrs.append(n2.func.attr + "()")
                     n2 = n2.func.value
+                elif isinstance(n2, ast.Call) and len(n2.args) == 1 and dotted(n2.func) == "type":
+                    attrs.append("__class__")
+                    n2 = n2.args[0]
                 elif isinstance(n2, ast.Call) and n2.args and dotted(n2.func) in SHALLOW_COPY_FUNCS:
                     n2 = n2.args[0]
                 else:
@@ -357,9 +424,15 @@ class ModuleScan:
             attrs.reverse()
             if name in taint:
                 cls_, origin = taint[name]
+                if cls_ == CLS:
+                    first = next((a for a in attrs if a != "__class__"), None)
+                    return (SHARED, name if first is None else f"{name}.{first}")
                 if cls_ == SELF:
                     # self.X where X is a class-level name (or an accessor of class-level tables) -> shared
                     first = next((a for a in attrs if a != "__class__"), None)
+                    if attrs and attrs[0] == "__class__":
+                        # self.__class__ / type(self): the class object itself
+                        return (SHARED, f"{name}.__class__" + ("" if first is None else f".{first}"))
                     if first is None:
                         return (SELF, name)
                     bare = first[:-2] if first.endswith("()") else first
@@ -444,11 +517,17 @@ class ModuleScan:
             """target_expr: the object that is mutated in place (attr_write: one of its attributes is (re)bound or deleted)"""
             t = expr_taint(target_expr)
             if t is None and attr_write and isinstance(target_expr, ast.Name) and target_expr.id not in taint and (
-                target_expr.id[:1].isupper() or target_expr.id in globs
+                target_expr.id[:1].isupper() or target_expr.id in globs or target_expr.id in self.module_names
             ):
                 # `ClassName.attr = …` / `setattr(ClassName, …)` / `GLOBAL.attr = …`: a (new) attribute of a class or
                 # module-level object written from inside a function is state shared by all later calls
                 t = (SHARED, target_expr.id)
+            if t is None and attr_write and isinstance(target_expr, ast.Attribute):
+                # `ClassName.method.attr = …` / `module.Class.attr = …`: an attribute parked on something reached from a
+                # class or module-level name
+                rn, _ = root_name(target_expr)
+                if rn and rn not in taint and (rn[:1].isupper() or rn in globs or rn in self.module_names):
+                    t = (SHARED, short(target_expr, 40))
             if t is None:
                 return
             cls_, origin = t
@@ -472,14 +551,19 @@ class ModuleScan:
                     else:
                         flat.append(tg)
                 for tg in flat:
-                    if isinstance(tg, ast.Subscript):
+                    if isinstance(tg, ast.Subscript) and isinstance(tg.value, ast.Call) and dotted(tg.value.func) in ("globals", "vars", "locals"):
+                        if dotted(tg.value.func) != "locals":
+                            self.add(q, "global-write", f"{short(tg.value, 40)}[..] =")
+                    elif isinstance(tg, ast.Subscript):
                         note(tg.value, f"{short(tg.value, 40)}[..] {'op=' if isinstance(node, ast.AugAssign) else '='}")
                     elif isinstance(tg, ast.Attribute):
                         note(tg.value, f"{short(tg, 40)} {'op=' if isinstance(node, ast.AugAssign) else '='}", attr_write=True)
                     elif isinstance(tg, ast.Name) and isinstance(node, ast.AugAssign):
                         # `x += ..` on a list / bitarray / bytearray parameter is in place
                         t = taint.get(tg.id)
-                        if t and t[0] == PARAM and t[1] in scalar:
+                        if t and t[0] == PARAM and (t[1] in truly_scalar or (t[1] in scalar and tg.id == t[1])):
+                            # `data: bytes` … `data += b".."` rebinds; a name that holds what another function made of
+                            # the parameter is not covered by the parameter's annotation
                             t = None
                         if t and t[0] in (PARAM, SHARED) and isinstance(node.op, (ast.Add, ast.BitOr, ast.BitAnd, ast.BitXor, ast.LShift, ast.RShift, ast.Mult)):
                             note(tg, f"{tg.id} {type(node.op).__name__}= (in place if the object is mutable)")
@@ -501,11 +585,89 @@ class ModuleScan:
                 extra = " [parameter is also rebound in the function]"
             self.add(q, kind, f"{origin}: " + "; ".join(sorted(ops)) + extra)
 
+        # ---- returns-argument: may the function hand back one of its parameters itself?
+        alias = {p: p for p in free_params if p not in truly_scalar}
+
+        def direct(e):
+            """the parameter the expression may BE (not a part or a copy of it)"""
+            if isinstance(e, ast.Name):
+                return alias.get(e.id)
+            if isinstance(e, ast.IfExp):
+                return direct(e.body) or direct(e.orelse)
+            if isinstance(e, ast.BoolOp):
+                return next((d for d in map(direct, e.values) if d), None)
+            if isinstance(e, ast.NamedExpr):
+                return direct(e.value)
+            if isinstance(e, ast.Call):
+                return next((d for d in map(direct, returned_args(e)) if d), None)
+            return None
+
+        for _ in range(4):
+            grew = False
+            for node in own_nodes:
+                tgts, val = [], None
+                if isinstance(node, ast.Assign):
+                    tgts, val = node.targets, node.value
+                elif isinstance(node, (ast.AnnAssign, ast.NamedExpr)) and node.value is not None:
+                    tgts, val = [node.target], node.value
+                d = direct(val) if val is not None else None
+                for tg in tgts:
+                    if d and isinstance(tg, ast.Name) and tg.id not in alias:
+                        alias[tg.id] = d
+                        grew = True
+            if not grew:
+                break
+        handed_back = set()
+        for node in own_nodes:
+            if isinstance(node, (ast.Return, ast.Yield)) and node.value is not None:
+                v = node.value
+                for c in [v] + (list(v.elts) if isinstance(v, (ast.Tuple, ast.List)) else []):
+                    d = direct(c)
+                    if d:
+                        handed_back.add(d)
+        for p in sorted(handed_back):
+            self.add(q, "returns-argument", p + (" [parameter is also rebound in the function]" if p in rebound else ""))
+            self.returns.setdefault(fn.name, set()).add((free_params.index(p), p))
+
         for node in fn.body:
             self.ambient_reads(node, q, skip_defs=True)
 
     # ------------------------------------------------------------------------------------------
-    def ambient_reads(self, node, q, skip_defs=False):
+    def ambient_full(self, n):
+        """dotted ambient origin of a Name / Attribute chain (`date.today` -> `datetime.date.today`), else None"""
+        d = dotted(n) if isinstance(n, (ast.Attribute, ast.Name)) else None
+        if not d:
+            return None
+        root = d.split(".")[0]
+        if root not in self.ambient:
+            return None
+        origin = self.ambient[root]
+        full = origin + d[len(root):]
+        if origin == "os" or origin.startswith("os."):
+            parts = full.split(".")
+            if len(parts) < 2 or parts[1] not in AMBIENT_OS:
+                return None
+        return full
+
+    def ambient_reads(self, node, q, skip_defs=False, at_import=False):
+        # calls (for `ambient-read-at-import` through a function of the package) are recorded for every module
+        stack = [node]
+        while stack:
+            n = stack.pop()
+            if skip_defs and n is not node and isinstance(n, (ast.FunctionDef, ast.AsyncFunctionDef, ast.ClassDef, ast.Lambda)):
+                continue
+            if isinstance(n, ast.Call):
+                cn = dotted(n.func)
+                if cn:
+                    (self.import_calls if at_import else self.calls).add((q, cn))
+                full = self.ambient_full(n.func)
+                if full and full not in PURE_AMBIENT:
+                    self.ambient_uses.add((q, full))
+                    if at_import:
+                        self.items.add((self.rel, q, "ambient-read-at-import", full + "()"))
+            elif at_import and isinstance(n, ast.Attribute) and self.ambient_full(n) in ("os.environ",):
+                self.items.add((self.rel, q, "ambient-read-at-import", "os.environ"))
+            stack.extend(ast.iter_child_nodes(n))
         if not self.ambient:
             return
         stack = [node]
@@ -576,12 +738,90 @@ def scan(pkg=PKG):
                         for t in tg:
                             if isinstance(t, ast.Name):
                                 class_attrs.add(t.id)
-    items = set()
+    module_names = {}
     for p in files:
-        rel = os.path.relpath(p, base)
-        ms = ModuleScan(p, rel, class_attrs, module_globals)
-        ms.run()
+        names = set()
+        for st in ast.walk(trees[p]):
+            if st in trees[p].body or isinstance(st, (ast.Import, ast.ImportFrom)):
+                if isinstance(st, (ast.FunctionDef, ast.AsyncFunctionDef, ast.ClassDef)):
+                    names.add(st.name)
+                elif isinstance(st, ast.Import):
+                    names |= {(a.asname or a.name).split(".")[0] for a in st.names}
+                elif isinstance(st, ast.ImportFrom):
+                    names |= {a.asname or a.name for a in st.names}
+                elif isinstance(st, (ast.Assign, ast.AnnAssign)):
+                    for t in (st.targets if isinstance(st, ast.Assign) else [st.target]):
+                        if isinstance(t, ast.Name):
+                            names.add(t.id)
+        module_names[os.path.relpath(p, base)] = names
+    # which functions may hand back an argument: fixed point (a function that returns what such a function returned)
+    returns_param = {}
+    scans = []
+    for _ in range(5):
+        scans = []
+        found = {}
+        for p in files:
+            rel = os.path.relpath(p, base)
+            ms = ModuleScan(p, rel, class_attrs, module_globals, returns_param, module_names)
+            ms.tree = trees[p]
+            ms.run()
+            scans.append(ms)
+            for k, v in ms.returns.items():
+                found.setdefault(k, set()).update(v)
+        if found == returns_param:
+            break
+        returns_param = found
+    items = set()
+    for ms in scans:
         items |= ms.items
+    # ---- ambient reads at import THROUGH a function of the package (`gpsdata = GPSData.zero()` as a default)
+    uses = {}  # qualified function name -> ambient origins it reads (directly or through the functions it calls)
+    calls = {}
+    for ms in scans:
+        for q, full in ms.ambient_uses:
+            if not q.endswith(("<class body>", "<default>", "<decorator>")) and q != "<module>":
+                uses.setdefault(q, set()).add(full)
+        for q, cn in ms.calls:
+            calls.setdefault(q, set()).add(cn)
+
+    def callees(cn):
+        """qualified names a dotted callee name may denote (matched by name: `GPSData.zero`, `zero`, a class -> its __init__)"""
+        if cn in memo:
+            return memo[cn]
+        last = cn.split(".")[-1]
+        tail2 = ".".join(cn.split(".")[-2:])
+        out = set()
+        for q in by_last.get(last, ()):
+            if q == cn or q.endswith("." + tail2) or q == tail2 or "." not in cn or cn.split(".")[0] in ("self", "cls"):
+                out.add(q)
+        for ctor in ("__init__", "__new__", "__post_init__"):
+            for q in by_last.get(ctor, ()):
+                if q == f"{last}.{ctor}" or q.endswith(f".{last}.{ctor}"):
+                    out.add(q)
+        memo[cn] = out
+        return out
+
+    memo = {}
+    by_last = {}
+    for q in set(uses) | set(calls):
+        by_last.setdefault(q.split(".")[-1], set()).add(q)
+
+    for _ in range(6):
+        grew = False
+        for q, cs in calls.items():
+            for cn in cs:
+                for t in callees(cn):
+                    new = uses.get(t, set()) - uses.get(q, set())
+                    if new and t != q:
+                        uses.setdefault(q, set()).update(new)
+                        grew = True
+        if not grew:
+            break
+    for ms in scans:
+        for q, cn in ms.import_calls:
+            for t in sorted(callees(cn)):
+                for full in sorted(uses.get(t, ())):
+                    items.add((ms.rel, q, "ambient-read-at-import", f"{full}() through {cn}()"))
     return sorted(items)
 
 
